@@ -21,6 +21,7 @@ DISPATCH = {
     "C08": ("harness.props.g1", "run"),
     "C09": ("harness.props.g1", "run"),
     "C11": ("harness.props.c11", "run"),
+    "C14": ("harness.props.c14", "run"),
 }
 
 
